@@ -428,8 +428,10 @@ viewMC == <<up, timer - now, rr, [s \in SrvSet |-> RelT(probes[s])], live,
 Bound   == Len(hist) <= D
 Export  == (Len(hist) = D) => PrintT(<<"H", ToJson(hist)>>)
 ExportT == PrintT(<<"T", ToJson(hist')>>)
-\* a 1-in-ExK sample of the transitions (TLC's own generator, seeded with -seed); the transitions of the rarer
-\* paths are always kept
-ExportS == (last'.via \in {"ClientNew", "ClientKnown", "ClientNoServer", "ServerKnown", "ServerCrash", "ServerUnknown"}
-            \/ RandomElement(1..ExK) = 1) => PrintT(<<"T", ToJson(hist')>>)
+\* a deterministic 1-in-ExK sample of the transitions (a hash of the step; the replay's vacuity guard demands
+\* that every action still occurs)
+Mix == now' + 3 * Len(hist') + 5 * leaked' + 7 * Cardinality(flows') + 11 * Cardinality({k \in Keys : mem'[k] # NoEnt})
+       + 13 * Cardinality({s \in SrvSet : live'[s] # Down}) + 17 * Cardinality({s \in SrvSet : probes'[s] # NoT})
+       + 19 * (timer' - now') + 23 * Cardinality({x \in flows' : x.touched = now'})
+ExportS == (Mix % ExK = 0) => PrintT(<<"T", ToJson(hist')>>)
 =============================================================================
